@@ -76,7 +76,7 @@ Qed.
 
 Lemma lookup_after_insert s x : bloom_lookup bpos (bloom_insert bpos s x) x = true.
 Proof.
-  unfold bloom_lookup, bloom_insert, bloom_positions; cbn [b_bits b_size b_k].
+  unfold bloom_lookup, bloom_insert, bloom_positions; cbn [b_bits b_size b_k b_bsize].
   apply forallb_forall. intros j Hj. now apply fold_set_in.
 Qed.
 
